@@ -26,7 +26,7 @@ Lemma raw_list_copy f D cap rl a src fc w' lt :
   let sz := list_allocSize src in
   let bs := sub (seg_of m src) (p_off src) sz in
   exists word pad cap',
-    w' = dstw (put_word D a word ++ (bs ++ repeat 0 pad)) cap' m rl /\ hinv (D ++ (bs ++ repeat 0 pad)) /\
+    w' = dstw (put_word D a word ++ (bs ++ repeat 0 pad)) cap' m rl /\ hinv (D ++ (bs ++ repeat 0 pad)) /\ bytes_ok (bs ++ repeat 0 pad) /\
     forall pre' tail, zlen pre' = zlen D -> word_is pre' a word -> zlen (pre' ++ (bs ++ repeat 0 pad) ++ tail) <= BOUND ->
       exists rl', readPtr true [pre' ++ (bs ++ repeat 0 pad) ++ tail] 4294967288 0 (pre' ++ (bs ++ repeat 0 pad) ++ tail) a 1
         = (Ok (mkPtr true 0 (zlen D) (p_len src) (p_size src) (uint_dec 1) KList false (p_bit src) false), rl').
@@ -67,6 +67,7 @@ Proof.
   split.
   { unfold dstw, w_set_dst. cbn [w_src w_src_rl]. f_equal. f_equal. apply put_word_app_left; lia. }
   split; [split; rewrite zlen_app, Lbody; lia|].
+  split; [unfold body; apply Forall_app; split; [unfold bs, sub; apply Forall_firstn', Forall_skipn'; apply (seg_of_ok m src Hm)|apply zeros_bytes_ok]|].
   intros pre' tail Lp Hw Hbound.
   set (M := pre' ++ body ++ tail) in *.
   assert (LM : zlen M = zlen D + padToWord sz + zlen tail) by (unfold M; rewrite !zlen_app, Lbody; lia).
@@ -86,7 +87,7 @@ Lemma wp_raw_list f D cap rl a src v fc w' :
   match v with VBits _ => True | VList k _ => k <> LPtr /\ k <> LComp | _ => False end ->
   write_ptr (S f) true (dstw D cap m rl) 0 a InSrc src fc = Ok w' ->
   exists word body cap' rl',
-    w' = dstw (put_word D a word ++ body) cap' m rl' /\ hinv (D ++ body) /\
+    w' = dstw (put_word D a word ++ body) cap' m rl' /\ hinv (D ++ body) /\ bytes_ok body /\
     forall pre' tail, zlen pre' = zlen D -> word_is pre' a word -> zlen (pre' ++ body ++ tail) <= BOUND ->
       reads_as (pre' ++ body ++ tail) a v.
 Proof.
@@ -112,7 +113,7 @@ Proof.
       by (unfold lt; destruct Hw as [->|[->|[->|[->| ->]]]]; cbn; repeat split; try reflexivity; lia).
     destruct Hlt as (Hlt & Hl1 & Hes).
     destruct (raw_list_copy f D cap rl a src fc w' lt Hi Ha Ham Hab Hv Hk Hc
-                ltac:(rewrite Hb, Hsz; reflexivity) Hlen Hlt) as (word & pad & cap' & -> & Hinv & Post); try assumption.
+                ltac:(rewrite Hb, Hsz; reflexivity) Hlen Hlt) as (word & pad & cap' & -> & Hinv & Bb & Post); try assumption.
     + rewrite Hb, Hsz. unfold list_raw, lt. cbn [p_valid p_comp p_bit p_size PointerCount DataSize negb p_len].
       destruct Hw as [->|[->|[->|[->| ->]]]]; reflexivity.
     + rewrite Hl1, Hes, Hsz. reflexivity.
@@ -122,7 +123,7 @@ Proof.
     + cbv zeta in *. rewrite Esz in *.
       set (bs := sub (seg_of m src) (p_off src) (n * w)) in *.
       assert (Lbs : zlen bs = n * w) by (unfold bs; apply sub_length; nia).
-      exists word, (bs ++ repeat 0 pad), cap', rl. split; [reflexivity|]. split; [exact Hinv|].
+      exists word, (bs ++ repeat 0 pad), cap', rl. split; [reflexivity|]. split; [exact Hinv|]. split; [exact Bb|].
       intros pre' tail Lp Hwd Hbound.
       destruct (Post pre' tail Lp Hwd Hbound) as (rl' & RR).
       set (M := pre' ++ (bs ++ repeat 0 pad) ++ tail) in *.
@@ -155,7 +156,7 @@ Proof.
     assert (Esz : list_allocSize src = (n + 7) / 8).
     { unfold list_allocSize. rewrite Hv, Hb. cbn [negb]. exact Ebl. }
     destruct (raw_list_copy f D cap rl a src fc w' 1 Hi Ha Ham Hab Hv Hk Hc
-                ltac:(rewrite Hb; reflexivity) Hlen ltac:(lia)) as (word & pad & cap' & -> & Hinv & Post); try assumption.
+                ltac:(rewrite Hb; reflexivity) Hlen ltac:(lia)) as (word & pad & cap' & -> & Hinv & Bb & Post); try assumption.
     + rewrite Hb. reflexivity.
     + cbn. symmetry. exact Hsz.
     + cbn. symmetry. exact Hb.
@@ -165,7 +166,7 @@ Proof.
       rewrite Ebl, slice_ok in Sl by lia. apply Ok_inj in Sl. subst d.
       set (bs := sub (seg_of m src) (p_off src) ((n + 7) / 8)) in *.
       assert (Lbs : zlen bs = (n + 7) / 8) by (unfold bs; apply sub_length; lia).
-      exists word, (bs ++ repeat 0 pad), cap', rl. split; [reflexivity|]. split; [exact Hinv|].
+      exists word, (bs ++ repeat 0 pad), cap', rl. split; [reflexivity|]. split; [exact Hinv|]. split; [exact Bb|].
       intros pre' tail Lp Hwd Hbound.
       destruct (Post pre' tail Lp Hwd Hbound) as (rl' & RR).
       set (M := pre' ++ (bs ++ repeat 0 pad) ++ tail) in *.
@@ -189,7 +190,7 @@ Lemma wp_ptr_list f : CopyValueDefs.P_cs m f -> forall D cap rl a src vs fc w',
   wf_ptr m src -> den true m 0 [] src (VList LPtr vs) -> forallb cvdom vs = true ->
   write_ptr (S f) true (dstw D cap m rl) 0 a InSrc src fc = Ok w' ->
   exists word body cap' rl',
-    w' = dstw (put_word D a word ++ body) cap' m rl' /\ hinv (D ++ body) /\
+    w' = dstw (put_word D a word ++ body) cap' m rl' /\ hinv (D ++ body) /\ bytes_ok body /\
     forall pre' tail, zlen pre' = zlen D -> word_is pre' a word -> zlen (pre' ++ body ++ tail) <= BOUND ->
       reads_as (pre' ++ body ++ tail) a (VList LPtr vs).
 Proof.
@@ -222,7 +223,7 @@ Proof.
   assert (Hstep : forall i D0' cap0 rl0 w0, 0 <= i < Z.of_nat (Z.to_nat n) -> hinv D0' -> zlen D + 8 * Z.of_nat (Z.to_nat n) <= zlen D0' ->
             step (dstw D0' cap0 m rl0) i = Ok w0 ->
             exists word body cap' rl',
-              w0 = dstw (put_word D0' (zlen D + 8 * i) word ++ body) cap' m rl' /\ hinv (D0' ++ body) /\
+              w0 = dstw (put_word D0' (zlen D + 8 * i) word ++ body) cap' m rl' /\ hinv (D0' ++ body) /\ bytes_ok body /\
               forall pre' tail, zlen pre' = zlen D0' -> word_is pre' (zlen D + 8 * i) word -> P i (pre' ++ body ++ tail)).
   { intros i D0' cap0 rl0 w0 Hi0 Hinv0 Hb0 Hs0. unfold step in Hs0.
     assert (Hin : 0 <= i < n) by lia.
@@ -257,10 +258,10 @@ Proof.
     assert (Hdst : dst_at de (zlen D + 8 * i) 0 1) by (unfold dst_at, de; cbn; repeat split; reflexivity).
     destruct (HC D0' cap0 rl0 de se [] [vi] (zlen D + 8 * i) 0 1 w0 Hinv0 Hdst ltac:(lia) ltac:(lia)
                  ltac:(lia) ltac:(lia) ltac:(lia) Ve Kse We Ale De SDi Hs0)
-      as (pwords & kids & cap2 & rl2 & Lp & -> & Hinv2 & PostC).
+      as (pwords & kids & cap2 & rl2 & Lp & -> & Hinv2 & Bk0 & PostC).
     destruct pwords as [|pw [|? ?]]; try (unfold zlen in Lp; cbn [length] in Lp; lia).
     cbn [Z.to_nat resize_words firstn repeat app Nat.sub length] in *.
-    exists pw, kids, cap2, rl2. split; [rewrite set_slots_one; reflexivity|]. split; [exact Hinv2|].
+    exists pw, kids, cap2, rl2. split; [rewrite set_slots_one; reflexivity|]. split; [exact Hinv2|]. split; [exact Bk0|].
     intros pre' tail Lp' Hwd Hbound.
     pose proof (PostC pre' tail Lp') as R. replace (8 * (0 + 1)) with 8 in R by lia.
     specialize (R ltac:(unfold word_is in Hwd; rewrite Hwd; unfold bytes_of_words; cbn [flat_map]; rewrite app_nil_r; reflexivity) Hbound 0 ltac:(lia)).
@@ -270,7 +271,7 @@ Proof.
   destruct (fold_res (iota (Z.to_nat n)) (dstw D1 cap1 m rl) step) as [w3| |] eqn:E1; try discriminate H. cbn [bind] in H.
   destruct (sem_loop step m (zlen D) (Z.to_nat n) P ltac:(lia) Hi1 Hstep (Z.to_nat n) (le_n _) D1 cap1 rl w3
                      ltac:(split; lia) ltac:(rewrite L1; lia) E1)
-    as (words & kids & cap2 & rl2 & Lw & -> & Hinvk & PostL).
+    as (words & kids & cap2 & rl2 & Lw & -> & Hinvk & Bk & PostL).
   assert (Edata : set_slots D1 (zlen D) words = D ++ bytes_of_words words).
   { unfold D1. replace (Z.to_nat (8 * n)) with (8 * length words)%nat by lia. apply set_slots_end. }
   rewrite Edata in H.
@@ -290,6 +291,7 @@ Proof.
   { unfold dstw, w_set_dst. cbn [w_src w_src_rl]. f_equal. f_equal. rewrite <- app_assoc. apply put_word_app_left; lia. }
   split.
   { unfold hinv in *. rewrite !zlen_app in *. rewrite L1 in Hinvk. rewrite Lbw. lia. }
+  split; [apply Forall_app; split; [apply bow_bytes_ok|exact Bk]|].
   intros pre' tail Lp' Hw Hbound.
   set (M := pre' ++ (bytes_of_words words ++ kids) ++ tail) in *.
   assert (LM : zlen M = zlen D + 8 * n + zlen kids + zlen tail) by (unfold M; rewrite !zlen_app, Lbw; lia).
